@@ -1,6 +1,11 @@
 #!/bin/sh
-# usage: ./mut.sh <prop> <file-in-repo> <sed-expression>   — apply a mutant, run the quick check, revert
+# usage: ./mut.sh <prop> <file-in-repo> <sed-expression> [lines]  — apply a mutant in a scratch worktree of /repo,
+# run the quick check against it, remove the worktree (never touches /repo)
 prop="$1"; f="$2"; expr="$3"
-cd /repo && sed -i "$expr" "$f" && if git diff --quiet; then echo "MUTANT DID NOT APPLY"; exit 3; fi
-cd /verif && ./check "$prop" quick 2>&1 | grep -E "VIOLATION|KNOWN|INCONCLUSIVE|PASS|exit=" | head -${4:-6}
-git -C /repo checkout -- . ; rm -rf /verif/replay
+wt=$(mktemp -d /tmp/wt-mut-XXXX); rmdir "$wt"
+git -C /repo worktree add -q --detach "$wt" HEAD || exit 2
+cleanup() { git -C /repo worktree remove --force "$wt" 2>/dev/null; git -C /verif checkout -q -- evidence/$prop.json 2>/dev/null; rm -rf /verif/replay; }
+trap cleanup EXIT
+cd "$wt" && sed -i "$expr" "$f" && if git diff --quiet; then echo "MUTANT DID NOT APPLY"; exit 3; fi
+(cd "$wt" && GOFLAGS=-mod=mod GOPROXY=off go build ./$(dirname "$f")/ 2>&1 | head -3)
+cd /verif && bin/gosmt check -prop "$prop" -tier quick -verif /verif -repo "$wt" 2>&1 | grep -E "VIOLATION|KNOWN|INCONCLUSIVE|PASS|exit=" | head -${4:-6}
